@@ -1,6 +1,6 @@
 """C09 — Light-player answers do not depend on earlier seeks."""
 import itertools
-from vlib.gen_lights import program, timestamps, varint, LOOP_BEGIN, LOOP_END, SET_GRAY, SET_BLACK, SET_WHITE, SET_PYRO, NOP, END
+from vlib.gen_lights import program, timestamps, varint, LOOP_BEGIN, LOOP_END, SET_GRAY, SET_BLACK, SET_WHITE, SET_PYRO, NOP, END, SET_COLOR, RESET_CLOCK
 from vlib.skyb import hx
 
 PID = "C09"
@@ -61,5 +61,22 @@ def generate(rng, tier):
         far = total + 7
         hops = [f"c{total * j // 6 + 3}" for j in range(1, 6)]
         qs = [f"c{far}", f"y{far}", "c13", f"y{far + 100}", f"s{total // 2}"] + hops + [f"c{far}", f"y{far}", "c13", f"c{total - 1}", f"c{far + 50000}"]
+        out.append((f"lightq {hx(p)} " + " ".join(qs), True))
+    # a playhead resting exactly on a RESET_CLOCK instant (the commands up to and including the clock reset executed, the
+    # timed command behind it not yet) and then sent backwards: everything before must be answered as by a fresh player
+    # (seed C09-25: a rewind skipped on "nothing played yet", which a clock reset makes look true)
+    for i in range(12 if thorough else 5):
+        d1, d2, d3 = rng.randint(3, 40), rng.randint(3, 40), rng.randint(3, 40)      # 20 ms units
+        pre = [bytes([NOP]), bytes([SET_PYRO, 0x80 | rng.randrange(7)]), bytes([SET_PYRO, rng.randrange(7)])]
+        kz = rng.randint(0, 2)
+        p = (bytes([SET_WHITE]) + varint(d1) + bytes([SET_PYRO, 0x81, SET_COLOR, 255, 0, 0]) + varint(d2)
+             + b"".join(rng.choice(pre) for _ in range(kz)) + bytes([RESET_CLOCK, SET_PYRO, 0x80, SET_COLOR, 0, 255, 0]) + varint(d3)
+             + bytes([SET_COLOR, 0, 0, 255]) + varint(50) + bytes([END]))
+        r = 20 * (d1 + d2)
+        back = [r // 2 + 1, 20 * d1 // 2 + 3, 20 * d1 + 7, r - 1, 1]
+        qs = [f"c{r}"] * (kz + 2 + rng.randint(0, 2))
+        for t in back:
+            qs += [f"c{t}", f"y{t}"]
+        qs += [f"c{r}", f"s{r}", f"y{back[0]}", f"c{r + 20 * d3 + 5}", f"c{back[1]}", f"c{r + 1}", f"y{back[2]}"]
         out.append((f"lightq {hx(p)} " + " ".join(qs), True))
     return out
